@@ -85,6 +85,11 @@ theorem flush_removes_minimum (sp : Char → Bool) (ps : List Part) :
   rw [Proofs.minIndent_eq_min]
   cases (Proofs.counted sp true ps).min? <;> rfl
 
+/-- Flushing is idempotent: once the smallest indentation has been removed the smallest indentation is 0 (line
+    structure and blank lines are not disturbed by the removal). -/
+theorem flush_idempotent (sp : Char → Bool) (ps : List Part) : flush sp (flush sp ps) = flush sp ps :=
+  Proofs.flush_idem sp ps
+
 /-- Melding keeps all the text and leaves no two literals adjacent. -/
 theorem meld_keeps_text (ps : List Part) : text (meld ps) = text ps := Proofs.text_meld ps
 
